@@ -18,6 +18,7 @@ RULE = (
     "id arrays of arity 2 and 3 with repeated single-agent measurements, control in any column and missing single-agent measurements; synergy on arity 2 with "
     ">=1 non-control per row, strict on/off; similarity matrix for 2..4 samples and 2..5 mapping entries with additive posterior samples. Non-trivial = unequal "
     "chain lengths, a repeated single-agent measurement, or a missing one, or a production-size evaluation. distinct = distinct case JSON."
+    ' In a third of the evaluation cases every write request of save_h5 fails in turn with ENOSPC over an older archive (a save that returns normally must have saved).'
 )
 ASSUMPTIONS = [
     "tolerance: 1e-10 relative to the metric's own value (the two variances additionally 1e-12 x the squared mean they are the spread around); 1e-10 / 1e-8 with a small absolute floor for effect arrays, synergy and the similarity matrix",
@@ -162,9 +163,32 @@ def _check_evaluation(case):
         tmp.cleanup(p)
     require(S.same_bits(me2.predictions, P) and S.same_bits(me2.observations, y) and np.array_equal(np.asarray(me2.chain_ids), ch) and S.same_str(me2.sample_names, nm), "evaluation.reload", "evaluation file does not reload unchanged")
     require(_close(me2.mse(), mse), "evaluation.reload.mse", "metrics differ after reload")
+    counts = {}
+    if (E + T + len(set(ch.tolist()))) % 3 == 0:
+        # the same save with a storage failure injected into each of its write requests in turn (the path holds an older evaluation):
+        # a save that returns normally has saved
+        from vf import iofault
+
+        used = []
+
+        def paths(k):
+            q = tmp.fresh("me_fault_%d.h5" % k)
+            used.append(q)
+            ModelEvaluation(predictions=P[::-1].copy() + 1.0, observations=y[::-1].copy() - 1.0, chain_ids=ch[::-1].copy(), sample_names=nm[::-1].copy()).save_h5(q)
+            return q
+
+        def verify(q):
+            m3 = ModelEvaluation.load_h5(q)
+            require(S.same_bits(m3.predictions, P) and S.same_bits(m3.observations, y) and np.array_equal(np.asarray(m3.chain_ids), ch) and S.same_str(m3.sample_names, nm), "evaluation.save_under_faults", "save_h5 returned normally although one of its write requests failed (disk full), and the file does not hold the evaluation that was saved")
+
+        try:
+            nreq, ret_, rais_ = iofault.save_under_faults(me.save_h5, verify, paths, require, "evaluation.save_under_faults", "ModelEvaluation.save_h5")
+        finally:
+            tmp.cleanup(*used)
+        counts = {"io_fault_points": nreq, "io_fault_saves_raised": rais_, "io_fault_saves_returned": ret_}
     sizes = [int(np.sum(ch == c)) for c in set(ch.tolist())]
     labels = ["evaluation", "chains=%d" % len(sizes)]
-    return {"nontrivial": len(set(sizes)) > 1, "labels": labels + (["unequal-chains"] if len(set(sizes)) > 1 else [])}
+    return {"nontrivial": len(set(sizes)) > 1, "labels": labels + (["unequal-chains"] if len(set(sizes)) > 1 else []) + (["storage-faults-injected"] if counts else []), "counts": counts}
 
 
 def _check_evaluation_big(case):
